@@ -228,8 +228,104 @@ import re as _re
 ANY = "⟪*⟫"     # wildcard marker usable inside expected strings
 
 
+def _scan_close(s, i, open_ch, close_ch):
+    """index of the bracket closing the one at s[i] (quotes skipped)"""
+    depth = 0
+    j = i
+    n = len(s)
+    while j < n:
+        ch = s[j]
+        if ch == "'":
+            j += 1
+            while j < n and s[j] != "'":
+                if s[j] == "\\":
+                    j += 1
+                j += 1
+        elif ch == open_ch:
+            depth += 1
+        elif ch == close_ch:
+            depth -= 1
+            if depth == 0:
+                return j
+        j += 1
+    return -1
+
+
+def _split_top(s, sep):
+    parts = []
+    depth = 0
+    cur = []
+    j = 0
+    n = len(s)
+    while j < n:
+        ch = s[j]
+        if ch == "'":
+            k = j + 1
+            while k < n and s[k] != "'":
+                if s[k] == "\\":
+                    k += 1
+                k += 1
+            cur.append(s[j:k + 1])
+            j = k + 1
+            continue
+        if ch in "([{":
+            depth += 1
+        elif ch in ")]}":
+            depth -= 1
+        if ch == sep and depth == 0:
+            parts.append("".join(cur))
+            cur = []
+        else:
+            cur.append(ch)
+        j += 1
+    parts.append("".join(cur))
+    return parts
+
+
+def sort_match_arms(s):
+    """string-level canonicalisation of expected terms: arms of guard-free matches sorted by pattern, catch-all last
+    (the normaliser orders arms the same way, so expectations may list arms in any order)"""
+    out = []
+    i = 0
+    while True:
+        j = s.find("match(", i)
+        if j < 0:
+            out.append(s[i:])
+            break
+        c1 = _scan_close(s, j + 5, "(", ")")
+        if c1 < 0 or c1 + 1 >= len(s) or s[c1 + 1] != "{":
+            out.append(s[i:j + 6])
+            i = j + 6
+            continue
+        c2 = _scan_close(s, c1 + 1, "{", "}")
+        if c2 < 0:
+            out.append(s[i:j + 6])
+            i = j + 6
+            continue
+        scrut = sort_match_arms(s[j + 6:c1])
+        arms = _split_top(s[c1 + 2:c2], ";")
+        parsed = []
+        ok = True
+        for a in arms:
+            k = a.find("=>")
+            if k < 0:
+                ok = False
+                break
+            parsed.append((a[:k], sort_match_arms(a[k + 2:])))
+        if ok and not any(" if " in p for p, _b in parsed):
+            last = [a for a in parsed if a[0] in ("_", "$")]
+            rest = sorted([a for a in parsed if a[0] not in ("_", "$")], key=lambda a: a[0])
+            if len(last) <= 1:
+                parsed = rest + last
+        out.append(s[i:j] + "match(" + scrut + "){" + (";".join(p + "=>" + b for p, b in parsed) if ok else s[c1 + 2:c2]) + "}")
+        i = c2 + 1
+    return "".join(out)
+
+
 def term_matches(got, expected):
     """exact comparison of a rendered term with an expected string; ⟪*⟫ in `expected` matches anything"""
+    if "match(" in expected:
+        expected = sort_match_arms(expected)
     if ANY not in expected:
         return got == expected
     rx = ".*".join(_re.escape(p) for p in expected.split(ANY))
@@ -285,3 +381,10 @@ def expect_fn(ctx, rule, key, suffix, expected, why, crate=None, syms_table=None
     t = N.term(fn["body"], syms)
     expect_term(ctx, rule, key, fn["sp"], t, expected, why)
     return fn, N
+
+
+def mk_match(scrut, arms):
+    """expected-term builder: match with arms sorted as the normaliser sorts them (catch-all last)"""
+    last = [(p, b) for p, b in arms if p in ("_", "$")]
+    rest = sorted([(p, b) for p, b in arms if p not in ("_", "$")], key=lambda a: a[0])
+    return "match(" + scrut + "){" + ";".join(p + "=>" + b for p, b in rest + last) + "}"
